@@ -232,6 +232,8 @@ def cases(M):
             for _ in range(2):
                 ua = (t + r.choice((-g // 2, 0, g // 2, g, -3600, 3600, -86400 * 3))) * US + r.randrange(US)
                 ub = ua + r.choice((r.randrange(0, 86400 * US), r.randrange(0, 40 * DAY_US), r.randrange(0, 800 * DAY_US)))
+                if not (gen.ok_instant(ua, 3) and gen.ok_instant(ub, 3)):
+                    continue
                 yield {"k": "rand", "za": zn, "zb": zn, "ua": ua, "ub": ub, "ti": i}
 
 
